@@ -74,7 +74,8 @@ def make_fn(failpath, names, mode):
         tok = 0
         for j, nm in enumerate(names):
             tok += int(kw[nm]) * (100 ** j)
-        if extra != ["kattr"] or kw["kattr"] != 7:
+        want_extra = ["kattr", "t"] if mode == "xvt" else ["kattr"]
+        if extra != want_extra or kw["kattr"] != 7:
             tok = -1          # constants must be passed exactly
         try:
             with open(failpath) as fh:
@@ -87,7 +88,7 @@ def make_fn(failpath, names, mode):
             return float(tok)
         if mode == "xy":
             return float(tok), float(2 * tok)
-        if mode == "xv":
+        if mode in ("xv", "xvt"):
             import numpy as _np
             return float(tok), _np.array([float(tok), tok + 0.5])
         if mode == "str":
@@ -169,9 +170,9 @@ class World(object):
         consts = {"kattr": 7}
         kw = dict(fn_args=self.names, var_dims=dims, constants=consts, attrs={"note": "hello"})
         if mode == "xv":
-            if self.variant.get("t_const", False):
-                raise NotImplementedError
             kw["var_coords"] = {"t": [0.5, 1.5]}
+        if mode == "xvt":
+            consts["t"] = [0.5, 1.5]      # a constant that names the internal dimension
         return xyz.Runner(self.fn, names, **kw)
 
     def make_farmer(self, broken=False):
@@ -329,6 +330,7 @@ def read_batches(w):
         for kw in kws:
             kw = dict(kw)
             extra = {k: kw.pop(k) for k in list(kw) if k not in w.names}
+            extra.pop("t", None)
             if extra != {"kattr": 7} or set(kw) != set(w.names):
                 ids.append(-1)
                 continue
@@ -361,11 +363,13 @@ def leaf_id(w, x):
                 return 0
             return w.id_of_tok.get(int(a[0]), -1) if a[1] == a[0] + 0.5 else -1
         if mode == "str":
-            if x is None:
+            # None is the documented placeholder for str/bool; an un-requested slot next to a missing
+            # first batch gets NaN instead - both read as "missing" here (C09 does not name the marker)
+            if x is None or (isinstance(x, float) and math.isnan(x)):
                 return 0
             return w.id_of_tok.get(int(str(x)[1:]), -1)
         if mode == "bool":
-            if x is None:
+            if x is None or (isinstance(x, float) and math.isnan(x)):
                 return 0
             return -2          # bools cannot be identified, only present/missing
     except Exception:
@@ -387,9 +391,11 @@ def check_value(w, res, want, to_df=False):
         for k, leaf in enumerate(leaves):
             i = leaf_id(w, leaf)
             if i == -2:
-                if (want[k] == 0) != (leaf is None):
-                    return "position %d: presence mismatch" % k
+                if want[k] == 0:
+                    return "position %d: a value where the model has Missing" % k
                 continue
+            if i == 0 and w.mode == "bool" and want[k] != 0:
+                return "position %d: Missing where the model has a value" % k
             if i != want[k]:
                 return "position %d (%r) holds the value of setting %s, expected %s (0 = missing)" % (k, locs[k], i, want[k])
         return None
@@ -431,10 +437,48 @@ def check_value(w, res, want, to_df=False):
             y = float(sel["y"].values)
             if not ((math.isnan(y) and want[k] == 0) or y == 2 * x):
                 return "ds.sel(%r)['y'] = %r inconsistent" % (loc, y)
-        if w.mode == "xv":
+        if w.mode in ("xv", "xvt"):
             v = np.asarray(sel["v"].values, dtype=float)
             if v.shape != (2,) or not ((np.isnan(v).all() and want[k] == 0) or (v[0] == x and v[1] == x + 0.5)):
                 return "ds.sel(%r)['v'] = %r inconsistent" % (loc, v.tolist())
+    return None
+
+
+def check_direct(w, reaped):
+    """C06: a complete reap of a farmer crop equals the direct run of the same runner (second oracle)."""
+    import xarray as xr
+    import pandas as pd
+    cfg = w.cfg
+    f = w.make_farmer()
+    r = f if w.farmer_kind == "runner" else f.runner
+    combos = w.combos_arg(reverse=True)
+    with contextlib.redirect_stdout(io.StringIO()), contextlib.redirect_stderr(io.StringIO()):
+        if w.farmer_kind == "sampler":
+            cases = [tuple(c) for c in cfg["cases"]]
+            direct = r.run_cases(cases, fn_args=w.case_names, to_df=True, verbosity=0)
+        elif cfg["nca"]:
+            from xyzpy.gen.prepare import parse_combos
+            direct = r.run_cases(w.cases_arg(), combos=parse_combos(combos), verbosity=0)
+        else:
+            direct = r.run_combos(combos, verbosity=0)
+    if isinstance(direct, pd.DataFrame):
+        a = reaped.sort_values(list(w.names)).reset_index(drop=True)
+        b = direct.sort_values(list(w.names)).reset_index(drop=True)
+        a = a[sorted(a.columns)]
+        b = b[sorted(b.columns)]
+        if list(a.columns) != list(b.columns):
+            return "reaped DataFrame has columns %r, the direct run %r" % (list(a.columns), list(b.columns))
+        if not a.equals(b):
+            return "reaped DataFrame differs from the direct run:\n%s\nvs\n%s" % (a.head(8), b.head(8))
+        return None
+    try:
+        order = list(direct.dims)
+        xr.testing.assert_identical(reaped.transpose(*[d for d in order if d in reaped.dims]),
+                                    direct.transpose(*[d for d in order if d in direct.dims]))
+    except AssertionError as e:
+        return "reaped Dataset is not identical to the direct run of the same runner: " + str(e)[:700]
+    except Exception as e:  # noqa
+        return "cannot compare with the direct run: %r" % (e,)
     return None
 
 
@@ -620,10 +664,15 @@ def replay_case(case, variant):
                         prob = check_store(w, ev["store"])
                         if prob:
                             return ("step %d after reap: %s" % (k, prob), "store", k, notes)
-                        if w.farmer_kind in ("runner", "harvester") and w.farmer is not None:
-                            last = w.farmer.last_ds if hasattr(w.farmer, "last_ds") else None
+                        if w.farmer_kind != "none" and w.farmer is not None:
+                            last = w.farmer.last_df if w.farmer_kind == "sampler" else w.farmer.last_ds
                             if last is not ret:
-                                notes.append("farmer.last_ds is not the reaped dataset")
+                                return ("step %d: the reaped result is not recorded as the farmer's last result" % k,
+                                        "last_result", k, notes)
+                            if want == "complete" and not (w.cause == "merge"):
+                                prob = check_direct(w, ret)
+                                if prob:
+                                    return ("step %d reap%r: %s" % (k, tuple(ev["args"]), prob), "direct", k, notes)
                     elif want == "refused":
                         if outcome != "refused":
                             return ("step %d reap%r on an incomplete crop: %s, model says refused with an error" % (
